@@ -2,6 +2,7 @@
 // turns a race report into a per-run, classifiable event.
 #include "driver.hpp"
 #include <cstring>
+#include <cstdlib>
 
 namespace sim
 {
@@ -30,8 +31,8 @@ extern "C"
     {
         // every occurrence is reported (no de-duplication), so a run's verdict does not depend on
         // what earlier runs in the same process reported; the process exit code is left alone.
-        return "suppress_equal_stacks=0:suppress_equal_addresses=0:exitcode=0:report_signal_unsafe=0:"
-               "history_size=7:external_symbolizer_path=/usr/bin/llvm-symbolizer-14";
+        // (symbolization is switched on for single replays through TSAN_OPTIONS, see fresh_replay)
+        return "suppress_equal_stacks=0:suppress_equal_addresses=0:exitcode=0:report_signal_unsafe=0:history_size=7:symbolize=0";
     }
 
     int __tsan_get_report_data(void *report, const char **description, int *count, int *stack_count, int *mop_count,
@@ -41,19 +42,31 @@ extern "C"
                               void **trace, unsigned long trace_size) __attribute__((weak));
     void __sanitizer_symbolize_pc(void *pc, const char *fmt, char *out_buf, size_t out_buf_size) __attribute__((weak));
 
-    // called by the TSan runtime for every report it is about to print
-    __attribute__((used, visibility("default"))) void __tsan_on_report(void *rep)
+    // Classify one report of the race detector.  Runs inside the runtime's report path: no heap
+    // allocation, no instrumented code.  In batch mode reports are not symbolized (the external
+    // symbolizer needs seconds on this binary): every report counts as a candidate, and the
+    // fresh-process replay (STSIM_SYMBOLIZE=1) decides by frame whether the library is involved.
+    static void stsim_handle_report(void *rep)
     {
         using namespace sim;
         RaceInfo &ri = race_info();
+        static const bool symbolize = std::getenv("STSIM_SYMBOLIZE") != nullptr;
         if (!__tsan_get_report_data || !__tsan_get_report_mop) { ++ri.foreign_reports; return; }
         const char *desc = "";
         int count = 0, stacks = 0, mops = 0, locs = 0, mutexes = 0, threads = 0, utids = 0;
         void *sleep_trace[4];
         __tsan_get_report_data(rep, &desc, &count, &stacks, &mops, &locs, &mutexes, &threads, &utids, sleep_trace, 4);
-        bool repo = false;
-        std::string where;
-        for (int m = 0; m < mops; ++m)
+        bool repo = !symbolize;
+        char where[400];
+        size_t wl = 0;
+        where[0] = 0;
+        auto append = [&](const char *t) {
+            while (*t && wl + 1 < sizeof where) where[wl++] = *t++;
+            where[wl] = 0;
+        };
+        append(desc ? desc : "race");
+        append(": ");
+        for (int m = 0; m < mops && symbolize; ++m)
         {
             int tid = 0, size = 0, write = 0, atomic = 0;
             void *addr = nullptr;
@@ -65,22 +78,35 @@ extern "C"
                 char buf[1024];
                 buf[0] = 0;
                 if (__sanitizer_symbolize_pc) __sanitizer_symbolize_pc(trace[k], "%s:%l", buf, sizeof buf);
-                const char *p = std::strstr(buf, "/repo/include/");
+                const char *p = std::strstr(buf, "/include/Spline");
                 if (p)
                 {
                     repo = true;
-                    if (where.size() < 300)
-                    {
-                        if (!where.empty()) where += (k == 0 ? " <-> " : " < ");
-                        where += (write ? "W " : "R ");
-                        where += (p + 14);
-                    }
+                    append(m ? " <-> " : "");
+                    append(write ? "W " : "R ");
+                    append(p + 9);
                     break;
                 }
             }
         }
-        std::string d = std::string(desc ? desc : "race") + ": " + where;
-        if (repo) { if (ri.repo_reports++ == 0) ri.first = d; }
-        else { if (ri.foreign_reports++ == 0 && ri.first.empty()) ri.first = d; }
+        if (!symbolize) append("(unsymbolized; replay the file for frames)");
+        if (repo) { if (ri.repo_reports++ == 0) std::strncpy(ri.first, where, sizeof ri.first - 1); }
+        else { if (ri.foreign_reports++ == 0 && !ri.first[0]) std::strncpy(ri.first, where, sizeof ri.first - 1); }
     }
 }
+
+// The runtime calls this (weak in the runtime, overridden here) for every report before printing it.
+// Returning true suppresses the text: a batch would otherwise spend its time printing thousands of
+// identical reports.  STSIM_TSAN_PRINT=1 keeps the full text (useful when replaying one file).
+namespace __tsan
+{
+class ReportDesc;
+bool OnReport(const ReportDesc *rep, bool suppressed);
+bool OnReport(const ReportDesc *rep, bool suppressed)
+{
+    static const bool print = std::getenv("STSIM_TSAN_PRINT") != nullptr;
+    if (suppressed) return true;
+    stsim_handle_report((void *)rep);
+    return !print;
+}
+} // namespace __tsan
